@@ -2,12 +2,12 @@
 
 PROP = dict(
     level="proof",
-    lean_modules=['PopsModel.Props.C12', 'PopsModel.Props.C20', 'PopsModel.Props.NonVacuous.Host'],
-    theorems=['Pops.C12_establish_event', 'Pops.C12_no_susceptible', 'Pops.C12_suitability_range_rejected', 'Pops.C12_lethal', 'Pops.C12_survival', 'Pops.C12_weather_range', 'Pops.C12_weather_degenerate', 'Pops.C20_err_probabilities'],
+    lean_modules=['PopsModel.Props.C12', 'PopsModel.Props.C20', 'PopsModel.Props.NonVacuous.Host', 'PopsModel.Props.C12Select', 'PopsModel.Props.Draws'],
+    theorems=['Pops.C12_establish_event', 'Pops.C12_no_susceptible', 'Pops.C12_suitability_range_rejected', 'Pops.C12_lethal', 'Pops.C12_survival', 'Pops.C12_weather_range', 'Pops.C12_weather_degenerate', 'Pops.C20_err_probabilities', 'Pops.C12_lethal_selection', 'Pops.C12_survival_selection', 'Pops.C12_lethal_selection_only_if', 'Pops.C12_survival_selection_only_if', 'Pops.C12_lethal_drawn'],
     commands=['hp.dispto', 'hp.lethal', 'hp.survival', 'err.weatherdist', 'err.suitability', 'mm.lethal', 'mm.survival'],
     runs={
-        "quick": [('h_host', 'pool', 0, 1500), ('h_model', 'model', 0, 400), ('h_err', 'errors', 0, 240), ('h_mmodel', 'multi', 0, 150), ('h_sim', 'sim', 0, 150)],
-        "thorough": [('h_host', 'pool', 0, 150000), ('h_model', 'model', 0, 20000), ('h_err', 'errors', 0, 24000), ('h_mmodel', 'multi', 0, 5000), ('h_sim', 'sim', 0, 5000)],
+        "quick": [('h_host', 'pool', 0, 1500), ('h_model', 'model', 0, 400), ('h_err', 'errors', 0, 240), ('h_mmodel', 'multi', 0, 150), ('h_sim', 'sim', 0, 150), ('h_multi', 'pool', 0, 300)],
+        "thorough": [('h_host', 'pool', 0, 150000), ('h_model', 'model', 0, 20000), ('h_err', 'errors', 0, 24000), ('h_mmodel', 'multi', 0, 5000), ('h_sim', 'sim', 0, 5000), ('h_multi', 'pool', 0, 20000)],
     },
     exhaustive={"quick": False, "thorough": False},
     rule="case (pool) = one random landscape (7 shapes incl. 1x1, 1xN, Nx1, rows != cols; SI/SEI, latency 0..3, 1..4 mortality cohorts, 20% empty cells) with 5-14 random operations (add/land a disperser with scripted uniform, deterministic generation, pests from/to, host move incl. same-cell, removal/pesticide treatment in both modes with coefficients k/64, pesticide end, survival rate, lethal temperature, mortality, latency step); case (model) = one random Model configuration (feature subsets, calendar with day/week/month steps, both entry points, injected kernel throwing dispersers inside / at the source / just outside / far outside) run for up to 40 steps with the state printed after every action; non-trivial = at least 3 different operation kinds on a landscape with a suitable cell (pool) / at least 3 steps (model); distinct = blake2b of the case's protocol lines",
